@@ -10,7 +10,7 @@ PLANS = {
         "thorough": [("hist", 10000), ("threads", 4000)],
     },
     "C15": {
-        "quick": [("hist", 750), ("threads", 150)],
+        "quick": [("hist", 600), ("threads", 120)],
         "thorough": [("hist", 20000), ("threads", 4000)],
     },
     "C12": {
